@@ -137,6 +137,8 @@ class ExprMixin:
                 st.ghost[name] = g
             return g
         mod = st.ghost.get("__module__")
+        if mod is not None and (mod.t.__name__, name) in self.const_overrides:
+            return py(self.const_overrides[(mod.t.__name__, name)])
         if mod is not None and name in mod.t.__dict__:
             return self.lift(mod.t.__dict__[name])
         import builtins
